@@ -1,0 +1,23 @@
+//go:build verif
+
+package mergeindex
+
+// Contracts for /verif (gvc). Comment-only file; see /verif/DESIGN.md §5 C13 / C10.
+
+//@ prop C13 C10
+
+// membership in a series-id set, as answered by uint64set.Has (no set is modified inside the functions below)
+//@ spec func sethas(s Ptr, x uint64) bool
+
+// A row of the tag index lists the ids of all series carrying a tag value. The value is hidden from tag listings only if
+// EVERY series of the row is dropped (or not eligible): one dropped id in the row must not hide the live ones after it;
+// and the id handed back is never a dropped one.
+//@ func (*BasicRowParser).IsExpectedTag
+//@   requires brp != nil
+//@   call .Has
+//@     assume ret0 == sethas(recv, arg0)
+//@     frame nothing
+//@   ensures [returned_series_is_live] result0 ==> !sethas(deletedTSIDs, result1)
+//@   ensures [hidden_only_if_every_series_is_dropped] !result0 && eligibleTSIDs == nil ==> (forall k int :: 0 <= k && k < len(brp.TSIDs) ==> sethas(deletedTSIDs, brp.TSIDs[k]))
+//@   loop 1
+//@     invariant forall k int :: 0 <= k && k <= rangeindex ==> (sethas(deletedTSIDs, brp.TSIDs[k]) || (eligibleTSIDs != nil && !sethas(eligibleTSIDs, brp.TSIDs[k])))
